@@ -41,14 +41,25 @@ Theorem C07_closure_is_downstream : forall objs c roots x,
 Proof. exact forced_closure_is_downstream. Qed.
 Print Assumptions C07_closure_is_downstream.
 
-(* a forced object runs again although a result is stored ... *)
+(* a forced object runs again although a result is stored: the inputs named in the signature of run are
+   requested first (d0 is what they run), then - unless one of those fails - its own run starts ... *)
 Theorem C07_forced_runs_again : forall classes run f w id o tc w' r,
   nth_error (w_objs w) id = Some o -> cls_of classes o = Some tc ->
   os_mem (state_of w id) = None -> os_forced (state_of w id) = true ->
   eval classes run (S f) w id = (w', r) ->
-  exists d, w_runlog w' = w_runlog w ++ (c_slug tc, o_key o) :: d.
+  (exists d0 d, w_runlog w' = w_runlog w ++ d0 ++ (c_slug tc, o_key o) :: d) \/
+  (r = inr ERun /\ c_runargs tc <> []).
 Proof. exact eval_forced_runs. Qed.
 Print Assumptions C07_forced_runs_again.
+
+(* for a task that names no input in the signature of run, its own run is the first thing that happens *)
+Theorem C07_forced_runs_again_plain : forall classes run f w id o tc w' r,
+  nth_error (w_objs w) id = Some o -> cls_of classes o = Some tc -> c_runargs tc = [] ->
+  os_mem (state_of w id) = None -> os_forced (state_of w id) = true ->
+  eval classes run (S f) w id = (w', r) ->
+  exists d, w_runlog w' = w_runlog w ++ (c_slug tc, o_key o) :: d.
+Proof. exact eval_forced_runs_plain. Qed.
+Print Assumptions C07_forced_runs_again_plain.
 
 (* ... exactly once: the new value stays in memory and later requests are memory hits *)
 Theorem C07_then_served_from_memory : forall classes run f w id w' v,
